@@ -845,7 +845,8 @@ def genJoinSer (rng : Rng) (len : Nat) : Rng × Array String :=
   -- and the slices of it (C13: every reachable graph): from every slot, the removed one included
   let lines := (List.range capL).foldl (fun (ls : Array String) v =>
     (((ls.push s!"slice g0 {v} g{3 + v % 3} -").push s!"observe g{3 + v % 3}").push s!"vprint g0 {v}").push s!"inspect g0 {v}") lines
-  (s1.rng, lines ++ #["xml g0", "dot g0", "debug g0", "display g0", "observe g0"])
+  -- the allocator on a graph with removed slots (C05): ids it returns are not present
+  (s1.rng, lines ++ #["xml g0", "dot g0", "debug g0", "display g0", "observe g0", "nextid g0", "observe g0", "nextid g0", "observe g0"])
 
 /-- render profile: a history, then every text export of the graph and of each present (and one absent) vertex;
     repeated once more after some further calls. Here: every export of the graph held by handle `h` (which has the
